@@ -311,10 +311,17 @@ class FrozenDriver(Base):
     def variants(self, op):
         n = op["op"]
         if n == "updated":
-            return ["dict", "pairs", "kw"] if (self.strkeys and all(p[1] != 99 for p in op["arg"]) and op["arg"]) else ["dict", "pairs"]
+            base_ = ["dict", "pairs", "iter", "frozen", "mappingproxy"]
+            if self.strkeys and all(p[1] != 99 for p in op["arg"]) and op["arg"]:
+                base_ += ["kw"] + (["pairs+kw"] if len(op["arg"]) >= 2 and len({p[0] for p in op["arg"]}) == len(op["arg"]) else [])
+            return base_
         if n == "copy":
             return ["copy.copy", "deepcopy", "pickle", "method"]
         return [None]
+
+    def _next_proto(self):
+        self._proto = (getattr(self, "_proto", -1) + 1) % (pickle.HIGHEST_PROTOCOL + 1)      # every pickle protocol in turn
+        return self._proto
 
     def step(self, o, op, variant):
         A, dec = self.A, self.dec
@@ -359,7 +366,18 @@ class FrozenDriver(Base):
                 src = o
                 ps = self.pairs(op["arg"])
                 f = variant or "dict"
-                o = src.updated(**dict(ps)) if f == "kw" else src.updated(dict(ps) if f == "dict" else ps)
+                if f == "kw":
+                    o = src.updated(**dict(ps))
+                elif f == "pairs+kw":
+                    o = src.updated(ps[:len(ps) // 2], **dict(ps[len(ps) // 2:]))
+                elif f == "iter":
+                    o = src.updated(iter(ps))
+                elif f == "frozen":
+                    o = src.updated(self.cls(ps))
+                elif f == "mappingproxy":
+                    o = src.updated(types.MappingProxyType(dict(ps)))
+                else:
+                    o = src.updated(dict(ps) if f == "dict" else ps)
                 if type(o) is not self.cls:
                     v = [-5]
                 got["also_f"] = [self.observe(src, None)]
@@ -371,7 +389,7 @@ class FrozenDriver(Base):
                 src = o
                 f = variant or "copy.copy"
                 c = copymod.copy(src) if f == "copy.copy" else copymod.deepcopy(src) if f == "deepcopy" else \
-                    pickle.loads(pickle.dumps(src)) if f == "pickle" else src.copy()
+                    pickle.loads(pickle.dumps(src, protocol=self._next_proto())) if f == "pickle" else src.copy()
                 if f != "method" and type(c) is not self.cls:
                     v = [-5]
                 if f == "method" and type(c) is self.cls and c is not src:
